@@ -113,6 +113,22 @@ type LibArr [2]int
 
 func (*LibArr) InitDefaults() {}
 
+// Named map types with InitDefaults: doing nothing, and setting one entry
+// whatever the map holds (idempotent; the key is outside the key pool of the
+// configurations). Only used as struct fields held by value.
+type LibMap map[string]int
+
+func (*LibMap) InitDefaults() {}
+
+type LibDefMap map[string]int
+
+func (m *LibDefMap) InitDefaults() {
+	if *m == nil {
+		*m = LibDefMap{}
+	}
+	(*m)["dflt"] = 1
+}
+
 // LibIniter: an interface type that lists InitDefaults (the type of fields no
 // configuration of this package mentions; they hold nil or a *LibConn).
 type LibIniter interface{ InitDefaults() }
@@ -151,6 +167,8 @@ var (
 	tLibNoopStr  = reflect.TypeOf(LibNoopStr(""))
 	tLibList     = reflect.TypeOf(LibList(nil))
 	tLibArr      = reflect.TypeOf(LibArr{})
+	tLibMap      = reflect.TypeOf(LibMap(nil))
+	tLibDefMap   = reflect.TypeOf(LibDefMap(nil))
 	tLibIniter   = reflect.TypeOf((*LibIniter)(nil)).Elem()
 	tLibRing     = reflect.TypeOf(LibRing{})
 )
